@@ -1,13 +1,50 @@
 //! Hand-written matchers for recorded known findings (see /verif/known_findings.json).
 //! A predicate looks at the (minimised) case and the violated clause; it never matches by property alone.
 
-use crate::case::Viol;
+use crate::case::{Case, Viol};
+
+fn doc_text(c: &Case) -> Option<String> {
+    match c {
+        Case::C09(a) => a.doc.as_str().map(|s| s.to_string()),
+        Case::C10R(r) => r.doc.as_str().map(|s| s.to_string()),
+        _ => None,
+    }
+}
+
+/// "!!" (secondary tag handle with an empty suffix): followed by end of input, white space, a line
+/// break or a flow indicator.
+fn has_empty_suffix_secondary_tag(s: &str) -> bool {
+    let b: Vec<char> = s.chars().collect();
+    let mut i = 0;
+    while i + 1 < b.len() {
+        if b[i] == '!' && b[i + 1] == '!' {
+            let next = b.get(i + 2).copied();
+            match next {
+                None => return true,
+                Some(c) if c.is_whitespace() || ",[]{}\0".contains(c) => return true,
+                _ => {}
+            }
+        }
+        i += 1;
+    }
+    false
+}
+
+/// a line that starts with '%' (a directive) and contains a NUL character
+fn has_nul_in_directive(s: &str) -> bool {
+    s.split(['\n', '\r']).any(|l| l.starts_with('%') && l.contains('\0'))
+}
 
 pub fn matches(predicate: &str, v: &Viol) -> bool {
     match predicate {
-        _ => {
-            let _ = v;
-            false
+        // C09: the dependency's string input accepts an empty-suffix `!!` tag that its buffered input rejects
+        "c09_empty_suffix_secondary_tag" => {
+            v.clause == "reader-disagrees" && doc_text(&v.case).map(|s| has_empty_suffix_secondary_tag(&s)).unwrap_or(false)
         }
+        // C09: NUL inside a %directive ends the directive for reader input only (consequence of the F04 repair)
+        "c09_nul_in_directive" => {
+            v.clause == "reader-disagrees" && doc_text(&v.case).map(|s| has_nul_in_directive(&s)).unwrap_or(false)
+        }
+        _ => false,
     }
 }
